@@ -348,7 +348,11 @@ func vfFamBCheckC06(d *vfFamBODesc, who string) []vfFamBFinding {
 // rangeCheck=false: a remote description used an extmap id outside 1..14 (an answer must
 // mirror it), so the one-byte range clause is not asserted. orphanRTX: the local
 // configuration registered an RTX whose primary is absent (input class for the class key).
-func vfFamBCheckC10(d *vfFamBODesc, who string, rangeCheck bool, orphanRTX bool) []vfFamBFinding {
+// remoteTwice[kind]: a remote description applied before offered one codec (same name, clock,
+// channels) under two payload types in a section of that kind (input class for the class key).
+// zeroPTPrefs[kind]: a transceiver of that kind got SetCodecPreferences entries with payload type
+// 0 ("take the MediaEngine's") and a remote description was applied (input class).
+func vfFamBCheckC10(d *vfFamBODesc, who string, rangeCheck bool, orphanRTX bool, remoteTwice, zeroPTPrefs map[string]bool) []vfFamBFinding {
 	var fs []vfFamBFinding
 	add := func(class, format string, a ...any) {
 		fs = append(fs, vfFamBFinding{class, who + ": " + fmt.Sprintf(format, a...)})
@@ -364,8 +368,13 @@ func vfFamBCheckC10(d *vfFamBODesc, who string, rangeCheck bool, orphanRTX bool)
 		for _, f := range s.Formats {
 			if listed[f] > 1 {
 				cls := "C10/dup-pt/other"
-				if orphanRTX {
+				switch {
+				case orphanRTX && s.Media == "video":
 					cls = "C10/dup-pt/filterUnattachedRTX-aliasing"
+				case remoteTwice[s.Media]:
+					cls = "C10/dup-pt/remote-codec-offered-under-two-pts"
+				case zeroPTPrefs[s.Media]:
+					cls = "C10/dup-pt/preferences-without-payload-type"
 				}
 				add(cls, "m-section #%d (%s) lists payload type %s %d times: %q", s.Index, s.Media, f, listed[f], s.Formats)
 				break
@@ -1207,6 +1216,7 @@ func vfFamBGenME(r *rapid.T, o vfFamBMEGenOpts) vfFamBMECfg {
 		return uint8(pt)
 	}
 	full := rapid.IntRange(0, 3).Draw(r, "meFullDefault") == 0
+	orphanOK := o.OrphanRTX && rapid.IntRange(0, 3).Draw(r, "meOrphanCfg") == 0
 	order := rapid.Permutation(vfFamBMETable).Draw(r, "meOrder")
 	haveA, haveV := false, false
 	var flat []vfFamBMECodec
@@ -1225,7 +1235,7 @@ func vfFamBGenME(r *rapid.T, o vfFamBMEGenOpts) vfFamBMECfg {
 		rtxMode := 0 // 0 none, 1 attached, 2 orphan
 		if g.RTX {
 			rtxMode = rapid.IntRange(0, 1).Draw(r, "meRTX")
-			if o.OrphanRTX && rapid.IntRange(0, 5).Draw(r, "meOrphan") == 0 {
+			if orphanOK && rapid.IntRange(0, 2).Draw(r, "meOrphan") == 0 {
 				rtxMode = 2
 			}
 		}
@@ -1444,5 +1454,25 @@ func vfFamBSortedKeys(m map[string]int) []string {
 		out = append(out, k)
 	}
 	sort.Strings(out)
+	return out
+}
+
+// vfFamBRemoteTwice reports, per media kind, whether some section of the description offers
+// one codec (same encoding name, clock rate and channels) under two payload types.
+func vfFamBRemoteTwice(d *vfFamBODesc) map[string]bool {
+	out := map[string]bool{}
+	for _, s := range d.Sections {
+		seen := map[string]string{}
+		for _, rm := range s.Rtpmaps {
+			k := strings.ToLower(rm.Val)
+			if strings.HasPrefix(k, "rtx/") {
+				continue
+			}
+			if pt, ok := seen[k]; ok && pt != rm.PT {
+				out[s.Media] = true
+			}
+			seen[k] = rm.PT
+		}
+	}
 	return out
 }
